@@ -19,15 +19,23 @@ type c11Op struct {
 	Name       string
 	NetFn, Cmd byte
 	Group      bool
+	OEM        bool
 }
 
+// the first ten are the pair universe of the statement; the rest add pairs
+// inside the group-extension (DCMI) and OEM NetFn classes, where only the
+// command number distinguishes the responses
 var c11Ops = []c11Op{
-	{"guid", 6, 0x37, false}, {"devid", 6, 0x01, false}, {"authcaps", 6, 0x38, false}, {"chassisstatus", 0, 0x01, false}, {"repoinfo", 0x0a, 0x20, false},
-	{"reserve", 0x0a, 0x22, false}, {"sensorreading", 4, 0x2d, false}, {"sessioninfo", 6, 0x3d, false}, {"getsdr", 0x0a, 0x23, false}, {"power", 0x2c, 0x02, true},
+	{"guid", 6, 0x37, false, false}, {"devid", 6, 0x01, false, false}, {"authcaps", 6, 0x38, false, false}, {"chassisstatus", 0, 0x01, false, false}, {"repoinfo", 0x0a, 0x20, false, false},
+	{"reserve", 0x0a, 0x22, false, false}, {"sensorreading", 4, 0x2d, false, false}, {"sessioninfo", 6, 0x3d, false, false}, {"getsdr", 0x0a, 0x23, false, false}, {"power", 0x2c, 0x02, true, false},
+	{"dcmicap", 0x2c, 0x01, true, false}, {"dcmisensorinfo", 0x2c, 0x07, true, false}, {"oem-a", 0x2e, 0x10, false, true}, {"oem-b", 0x2e, 0x11, false, true},
 }
+
+var c11Enterprise = []byte{0x57, 0x01, 0x00}
 
 type c11One struct {
 	A, B      int    // indices into c11Ops: the stray reply answers A, the caller sent B
+	StrayCode byte   // completion code carried by the stray reply
 	Pattern   string // stray-only | stray-then-right | stale-previous | unsolicited-twice | reordered
 	InSession bool
 	Suite     int
@@ -48,23 +56,23 @@ func init() {
 	register(&Check{
 		ID:    "C11",
 		Level: "fault_enumeration",
-		Rule: "every ordered pair of distinct commands from a set of 10 (4 outside a session) x 5 stray-reply patterns (only strays; stray then the right reply; the previous call's duplicate; two unsolicited replies; reordered replies) x {session-less, in-session with authentic strays}: " +
+		Rule: "every ordered pair of distinct commands from a set of 14 (the statement's 10 plus two more DCMI group-extension and two OEM commands, so that pairs differing only in the command number exist; 7 of them outside a session) x 5 stray-reply patterns x stray completion codes {00, C1, D4, C0, FF} (only strays; stray then the right reply; the previous call's duplicate; two unsolicited replies; reordered replies) x {session-less, in-session with authentic strays}: " +
 			"the reply delivered during the call for command B is a well-formed (and in-session: authentic) response to command A with a distinguishable body long enough to decode as B's; result must be an error or B's own value, and 3..6 follow-up commands must each return their own value; " +
 			"plus loopback-UDP histories in which the simulated BMC really duplicates datagrams into the socket queue; non-trivial = a stray datagram was delivered during a call; distinct = distinct (A, B, pattern, mode)",
 		Assumptions: []string{"strays are responses to a different (NetFn, command); duplicates of the same command cannot be told apart by the statement and are not asserted"},
 		Exhaustive:  func(string) bool { return true },
 		Gen: func(tier string, seed int64) []ev.Case {
 			var cs []ev.Case
-			for f := 0; f < 100; f += 10 {
-				cs = append(cs, ev.MkCase("batch", c11Batch{InSession: true, From: f, To: f + 10, Seed: seed}))
+			for f := 0; f < 14*14; f += 14 {
+				cs = append(cs, ev.MkCase("batch", c11Batch{InSession: true, From: f, To: f + 14, Seed: seed}))
 			}
-			cs = append(cs, ev.MkCase("batch", c11Batch{InSession: false, From: 0, To: 100, Seed: seed}))
+			cs = append(cs, ev.MkCase("batch", c11Batch{InSession: false, From: 0, To: 14 * 14, Seed: seed}))
 			nu := 6
 			if tier == "thorough" {
 				nu = 60
 				for k := 1; k < 30; k++ {
-					for f := 0; f < 100; f += 10 {
-						cs = append(cs, ev.MkCase("batch", c11Batch{InSession: true, From: f, To: f + 10, Seed: seed + int64(k)*997}))
+					for f := 0; f < 14*14; f += 14 {
+						cs = append(cs, ev.MkCase("batch", c11Batch{InSession: true, From: f, To: f + 14, Seed: seed + int64(k)*997}))
 					}
 				}
 			}
@@ -96,15 +104,21 @@ func c11Exec(run *ev.Run, c ev.Case) {
 			return
 		}
 		for idx := b.From; idx < b.To; idx++ {
-			a, bb := idx/10, idx%10
+			a, bb := idx/14, idx%14
 			if a == bb {
 				continue
 			}
-			if !b.InSession && (a > 2 || bb > 2) {
-				continue // only guid, devid(no), authcaps... restrict to the commands valid outside a session
+			sessionlessOK := func(i int) bool { return i <= 2 || i >= 10 } // guid, devid, authcaps, DCMI capabilities and OEM commands
+			if !b.InSession && (!sessionlessOK(a) || !sessionlessOK(bb)) {
+				continue
 			}
 			for pi, p := range c11Patterns {
-				c11Run(run, c11One{A: a, B: bb, Pattern: p, InSession: b.InSession, Suite: (idx + pi) % 9, Follow: 3 + (idx+pi)%4, Seed: b.Seed})
+				for ci, code := range []byte{0x00, 0xc1, 0xd4, 0xc0, 0xff} {
+					if ci > 0 && (p == "stale-previous" || (idx+pi+ci)%2 == 1) {
+						continue // the stale reply is the real one; halve the error-code grid
+					}
+					c11Run(run, c11One{A: a, B: bb, StrayCode: code, Pattern: p, InSession: b.InSession, Suite: (idx + pi) % 9, Follow: 3 + (idx+pi)%4, Seed: b.Seed})
+				}
 			}
 		}
 	}
@@ -118,6 +132,9 @@ func c11Body(op c11Op, tag byte) []byte {
 	}
 	if op.Group {
 		b[0] = 0xdc
+	}
+	if op.OEM {
+		copy(b, c11Enterprise)
 	}
 	return b
 }
@@ -163,10 +180,14 @@ func c11Run(run *ev.Run, o c11One) {
 		return refbmc.RMCP(refbmc.SessHdr(0, 0, 0, m))
 	}
 	send := func(op c11Op, maxSends int) (ipmi.CompletionCode, []byte, error, any, string) {
-		cmd := &RawCmd{Op: ipmi.Operation{Function: ipmi.NetworkFunction(op.NetFn), Command: ipmi.CommandNumber(op.Cmd)}, NoReq: !op.Group, Label: op.Name}
+		cmd := &RawCmd{Op: ipmi.Operation{Function: ipmi.NetworkFunction(op.NetFn), Command: ipmi.CommandNumber(op.Cmd)}, NoReq: !op.Group && !op.OEM, Label: op.Name}
 		if op.Group {
 			cmd.Op.Body = ipmi.BodyCodeDCMI
 			cmd.Req = []byte{1, 0, 0}
+		}
+		if op.OEM {
+			cmd.Op.Enterprise = 0x000157
+			cmd.Req = []byte{9}
 		}
 		ctx, cancel := e.LimitCtx(maxSends)
 		defer cancel()
@@ -178,7 +199,18 @@ func c11Run(run *ev.Run, o c11One) {
 	strayBodyA := c11Body(opA, 0xe0)
 	strayMsg := func(evn *refbmc.Event) []byte {
 		body := strayBodyA
-		return refbmc.BuildRsp(0x81, opA.NetFn+1, 0, 0x20, evn.RqSeq, 0, opA.Cmd, 0, body)
+		if o.StrayCode != 0 && (o.A+o.B)%2 == 0 {
+			// error replies are usually truncated after the code (group/OEM prefix kept)
+			switch {
+			case opA.Group:
+				body = body[:1]
+			case opA.OEM:
+				body = body[:3]
+			default:
+				body = nil
+			}
+		}
+		return refbmc.BuildRsp(0x81, opA.NetFn+1, 0, 0x20, evn.RqSeq, 0, opA.Cmd, o.StrayCode, body)
 	}
 	attempt := 0
 	strays := 0
@@ -232,18 +264,21 @@ func c11Run(run *ev.Run, o c11One) {
 	maxSends := 4
 	code, got, err, pv, st := send(opB, maxSends)
 	e.Filter = nil
-	desc := fmt.Sprintf("stray reply to %s (NetFn %#x cmd %#x) during %s (NetFn %#x cmd %#x), pattern %s, in-session %v", opA.Name, opA.NetFn+1, opA.Cmd, opB.Name, opB.NetFn, opB.Cmd, o.Pattern, o.InSession)
+	desc := fmt.Sprintf("stray reply (code %#x) to %s (NetFn %#x cmd %#x) during %s (NetFn %#x cmd %#x), pattern %s, in-session %v", o.StrayCode, opA.Name, opA.NetFn+1, opA.Cmd, opB.Name, opB.NetFn, opB.Cmd, o.Pattern, o.InSession)
 	if pv != nil {
 		run.Violation("C11:panic:"+panicSite(st), fmt.Sprintf("%s: panic %v\n%s", desc, pv, trimStack(st)), cs, nil)
 		return
 	}
 	if strays > 0 {
-		run.Nontrivial(fmt.Sprintf("%d %d %s %v", o.A, o.B, o.Pattern, o.InSession))
+		run.Nontrivial(fmt.Sprintf("%d %d %#x %s %v", o.A, o.B, o.StrayCode, o.Pattern, o.InSession))
 		run.Event("stray-datagrams-delivered", strays)
 	}
 	wantBody := rightBody
 	if opB.Group && len(wantBody) > 0 {
 		wantBody = wantBody[1:]
+	}
+	if opB.OEM && len(wantBody) >= 3 {
+		wantBody = wantBody[3:]
 	}
 	if err == nil {
 		if o.Pattern == "stray-only" {
@@ -258,6 +293,9 @@ func c11Run(run *ev.Run, o c11One) {
 	// re-synchronisation
 	for k := 0; k < o.Follow; k++ {
 		op := c11Ops[(o.B+k+1)%len(c11Ops)]
+		if op.OEM && !o.InSession {
+			op = c11Ops[0]
+		}
 		if !o.InSession {
 			op = c11Ops[[]int{0, 2}[k%2]]
 		}
@@ -278,6 +316,9 @@ func c11Run(run *ev.Run, o c11One) {
 		want := rightBody
 		if op.Group && len(want) > 0 {
 			want = want[1:]
+		}
+		if op.OEM && len(want) >= 3 {
+			want = want[3:]
 		}
 		if err != nil || code != 0 || !bytes.Equal(got, want) {
 			run.Violation("C11:desynchronised", fmt.Sprintf("%s: follow-up command %d (%s) returned code %v err %v body %x, its own response was %x", desc, k, op.Name, code, err, got, want), cs, nil)
